@@ -475,6 +475,11 @@ GENERIC_NODES: Dict[str, Tuple[str, str, List[Any], Dict[str, Any]]] = {
     "nn.RMSNorm": ("call_function", "F.rms_norm", ["IN", (8,), "W", 1e-5], {}),
     "nn.CrossEntropyLoss": ("call_function", "F.cross_entropy", ["IN", "W"], {"weight": None, "ignore_index": -100, "reduction": "mean", "label_smoothing": 0.0}),
     "nn.MSELoss": ("call_function", "F.mse_loss", ["IN", "W"], {"reduction": "mean"}),
+    "mapped_conv1d": ("call_function", "F.conv1d", ["IN", "W"], {"stride": 2}),
+    "mapped_attention": ("call_function", "F.scaled_dot_product_attention", ["IN", "IN", "IN"], {"is_causal": True}),
+    "mapped_embedding": ("call_function", "F.embedding", ["IN", "W"], {"padding_idx": 0}),
+    "slicing": ("call_function", "operator.getitem", ["IN", 0], {}),
+    "method_reshape": ("call_method", "reshape", ["IN", -1, 8], {}),
     "residual_skip_first": ("call_function", "operator.add", ["IN", "BRANCH"], {}),
     "residual_branch_first": ("call_function", "operator.add", ["BRANCH", "IN"], {}),
     "residual_iadd": ("call_function", "operator.iadd", ["IN", "BRANCH"], {}),
